@@ -1164,6 +1164,68 @@ fn case_fn(case: &mut Case) -> CaseResult {
     Ok(())
 }
 
+/// The same labelled faults through the built CLI on a multi-file project: the faulty document is
+/// distributed over files connected by #import lines, `nitrogql check --output-format json` must exit 1
+/// with at least one diagnostic. Covers cli/src/check.rs (which decides what is reported per file) and
+/// faults that only show in the importing operation's context (variables used by imported fragments).
+fn cli_case(case: &mut Case, base: &std::path::Path) -> CaseResult {
+    use crate::cli::{run_cli, Project};
+    let so = schema_opts_from_flags(case);
+    let gs = gen_schema(&mut case.ch, &so);
+    let mut dopts = doc_opts_from_flags(case);
+    dopts.all_fragments_used = true;
+    dopts.max_frags = 4;
+    let (gd, _) = gen_doc(&mut case.ch, &gs.schema, &dopts);
+    let mut doc = gd.doc.clone();
+    let Some(fault) = inject(&mut case.ch, &mut doc, &gs.schema) else {
+        case.discard("fault-not-applicable");
+        return Ok(());
+    };
+    let labels = refvalid::validate(&gs.schema, &doc);
+    if !labels.contains(fault.label) {
+        if (fault.label == "undefined-variable" || fault.label == "variable-type-incompatible") && fault.class.contains("unused") {
+            case.discard("variable-fault-in-unused-fragment");
+            return Ok(());
+        }
+        panic!("harness: injected fault {} ({}) not confirmed by the reference validator (got {labels:?})\n{}", fault.label, fault.detail, canon_op(&doc));
+    }
+    let split = crate::split::split_into_files(&mut case.ch, &doc);
+    let dir = base.join(format!("p{:016x}", hash_of(&(case.ch.data(), std::thread::current().id()))));
+    let proj = Project::new(&dir);
+    proj.write("graphql.config.yaml", "schema: \"schema.graphql\"\ndocuments: \"ops/**/*.graphql\"\n");
+    let schema_text = canon_ts(&gs.doc);
+    proj.write("schema.graphql", &schema_text);
+    let mut files = vec![];
+    for (rel, m) in &split.files {
+        let t = canon_op(m);
+        proj.write(&format!("ops/{rel}"), &t);
+        files.push(json!({"path": format!("ops/{rel}"), "text": t}));
+    }
+    let run = run_cli(&dir, &["check", "--output-format", "json"]);
+    let detail = json!({"schema": schema_text, "operation_files": files, "fault": {"rule": fault.label, "position": fault.class, "what": fault.detail},
+        "status": run.status, "stdout": run.stdout.chars().take(1500).collect::<String>(), "stderr": run.stderr.chars().take(600).collect::<String>()});
+    proj.remove();
+    case.evals(1);
+    if run.crashed() {
+        return Err(Failure::new("cli-crashed", format!("check crashed: {}", run.stderr.lines().find(|l| l.contains("panicked")).unwrap_or("signal")), detail));
+    }
+    let n_diags = run.json().ok().map(|v| v["check"]["errors"].as_array().map(|a| a.len()).unwrap_or(0) + if v["error"].is_object() { 1 } else { 0 }).unwrap_or(0);
+    if run.status == Some(0) || n_diags == 0 {
+        return Err(Failure::new(
+            format!("cli-miss:{}:{}@{}", cause_of(&fault), fault.label, fault.class),
+            format!("`nitrogql check` exits {:?} with {n_diags} diagnostics on a project violating '{}' ({}) at {}", run.status, fault.label, fault.detail, fault.class),
+            detail,
+        ));
+    }
+    case.label(&format!("{}@{}", fault.label, fault.class));
+    case.label(&format!("files-{}", split.files.len()));
+    if split.files.len() > 1 {
+        case.nontrivial(&(fault.label, fault.class.clone(), split.files.len(), split.max_chain));
+    }
+    case.sample(|| detail.clone());
+    Ok(())
+}
+
 pub fn run(env: &Env) -> i32 {
     let mut rep = Report::new(
         env,
@@ -1193,5 +1255,11 @@ pub fn run(env: &Env) -> i32 {
     rep.probe("C03-same-interface-fragment-unchecked", probe("interface I { a: Int }\ntype T implements I { a: Int }\ntype Query { i: I }", "query Q { i { ... on I { nope } } }"));
 
     rep.campaign("faults", env.cases(120_000, 1_000_000), (300, 1400), case_fn);
+    rep.note("campaign cli-faults: the same fault operators on the built binary: the faulty document is distributed over 1-4 files connected by #import lines and `nitrogql check --output-format json` must exit 1 with >= 1 diagnostic. Non-trivial there: more than one file");
+    rep.shrink_iters = Some(300);
+    let base = work_dir("c03");
+    let b2 = base.clone();
+    rep.campaign("cli-faults", env.cases(6_000, 60_000), (300, 1600), move |case| cli_case(case, &b2));
+    let _ = std::fs::remove_dir_all(&base);
     rep.finish()
 }
